@@ -88,6 +88,43 @@ static inline void iora_flushguard_reset(iora_flushguard *g) { g->engaged = 0; g
 static inline void iora_flushguard_engage(iora_flushguard *g, iora_mutex *m, size_t *af, iora_cv *tcv, SyncReceiveBuffer *b)
 { g->engaged = 1; g->m_ref = m; g->af_ref = af; g->teardownCv = tcv; g->buf = b; FlushGuard_ctor_body(g); }
 
+/* ---- receiveSync / connectSync as seen by teardown (the full functional contracts are in units sync_receive / sync_connect; here: fences, definite
+ * results and counter restoration). Parked waits: ONE environment step in which anything allowed by the monitor may happen - in particular teardown may
+ * set shuttingDown - and the wait returns its predicate (wait_until) / returns (wait_for). ---- */
+typedef struct { size_t cap; } iora_outbuf;
+static inline iora_time iora_deadline(iora_time t) { return t; }
+static inline void iora_copy_out(iora_outbuf *out, SyncReceiveBuffer *b, iora_spos src, size_t n) { IORA_ASSERT(b->data.lo <= src && n <= b->data.hi - src && n <= out->cap, "MC memcpy inside the vector and the caller's buffer"); }
+typedef struct { size_t *counter_ref; iora_cv *teardownCv; const iora_mutex *guard; } iora_parkguard;
+static inline void ParkGuard_ctor_body(iora_parkguard *self);
+static inline void ParkGuard_dtor(iora_parkguard *self);
+static inline size_t *iora_pg_counter(iora_parkguard *g) { IORA_ASSERT(g->guard->held, "LK3 park counter modified with syncMutex held"); return g->counter_ref; }
+static inline iora_parkguard iora_parkguard_make(size_t *c, iora_cv *tcv, const iora_mutex *m) { iora_parkguard g = { c, tcv, m }; ParkGuard_ctor_body(&g); return g; }
+static inline void iora_parkguard_dtor(iora_parkguard *g) { ParkGuard_dtor(g); }
+bool G_parked, G_sd_at_wake; size_t G_ar_at_wake, G_ac_at_wake, G_rx_waiters_at_wake; unsigned G_unlocks;
+static inline void pk_env_buffer(Impl *im, SyncReceiveBuffer *b)
+{ size_t lo = nondet_size_t(), hi = nondet_size_t(); IORA_ASSUME(lo >= b->data.lo && hi >= b->data.hi && lo <= hi);
+  b->data.lo = lo; b->data.hi = hi; b->hasData = hi > lo; if (nondet_bool()) b->closed = 1; if (nondet_bool()) b->overflow = 1; b->flushing = nondet_bool();
+  if (nondet_bool()) im->shuttingDown = 1;
+  size_t ar = nondet_size_t(); IORA_ASSUME(ar >= 1 && ar < (size_t)-1); im->activeReceives = ar; }
+#define IORA_CV_WAIT_UNTIL(s, b, l, P) \
+  IORA_ASSERT((l).owns && (l).m->held && (l).m == &_impl->syncMutex, "LK4 condition-variable wait with syncMutex owned"); \
+  bool s = (P); if (!s) { pk_env_buffer(_impl, b); s = (P); } \
+  G_parked = 1; G_sd_at_wake = _impl->shuttingDown; G_ar_at_wake = _impl->activeReceives; G_rx_waiters_at_wake = (b)->waiters
+static inline void pk_env_connect(Impl *im, SyncConnectOp *op)
+{ if (nondet_bool()) im->shuttingDown = 1;
+  if (!op->done && nondet_bool()) { op->done = 1; op->result = nondet_bool() ? iora_result_ok(nondet_u64()) : iora_result_err(nondet_int()); }
+  size_t ac = nondet_size_t(); IORA_ASSUME(ac >= 1 && ac < (size_t)-1); im->activeConnects = ac; }
+#define IORA_CV_WAIT_FOR(o, l, P) \
+  IORA_ASSERT((l).owns && (l).m->held && (l).m == &_impl->syncMutex, "LK4 condition-variable wait with syncMutex owned"); \
+  if (!(P)) { pk_env_connect(_impl, o); } \
+  G_parked = 1; G_sd_at_wake = _impl->shuttingDown; G_ac_at_wake = _impl->activeConnects
+SyncConnectOp G_fresh_op;
+static inline SyncConnectOp *iora_make_sco(Impl *im) { SyncConnectOp *o = &G_fresh_op; o->done = false; o->abandoned = false; o->result = iora_result_err(TransportError_Timeout); o->guard = &im->syncMutex; o->cv.n_one = 0; o->cv.n_all = 0; return o; }
+unsigned G_connect_calls; bool G_conn_fails;
+static inline iora_result iora_engine_connect(Impl *im, iora_host h, uint16_t port, int tls) { (void)im; (void)h; (void)port; (void)tls; if (G_connect_calls < 1000) G_connect_calls++; return G_conn_fails ? iora_result_err(TransportError_Connect) : iora_result_ok(nondet_u64()); }
+static inline void sc_ulock_unlock(iora_ulock *l) { iora_ulock_unlock(l); if (G_unlocks < 1000) G_unlocks++; }
+static inline void sc_ulock_lock(iora_ulock *l) { pk_env_connect(G_impl, &G_fresh_op); iora_ulock_lock(l); G_ac_at_wake = G_impl->activeConnects; }
+
 /* ---- loop contracts (range-for over the two maps: every parked condition variable is notified) ---- */
 #if !defined(IORA_CANARIES)
 #undef IORA_CANARY_LOOP
